@@ -191,6 +191,15 @@ class C06(Spec):
     def search_gen(self, tier, rng):
         return self.gen('quick', rng)
 
+    def terms(self, c):
+        """Gallina expressions of a seq case (corpus cases come without them); None = outside the grammar"""
+        if 'terms' not in c:
+            try:
+                c['terms'] = [translate.expr_term(s, allow_float=False) for s in c['es']]
+            except translate.Untranslatable:
+                c['terms'] = None
+        return c['terms']
+
     def got_term(self, c):
         if c['kind'] == 'row':
             return '(run_row lib "%s" allnames rvals)' % c['a']
@@ -201,6 +210,8 @@ class C06(Spec):
         return render(res['res'])
 
     def compare_case(self, c, res):
+        if c['kind'] == 'seq' and self.terms(c) is None:
+            return False
         return c['kind'] in ('row', 'seq') and res.get('res', '__none__') != '__none__'
 
     def kind(self, c, res):
